@@ -48,6 +48,9 @@ theorem starts_of_messages : ∀ (evs : List OutEv.Ev) (s : St),
         cases t.willRun <;> rfl
     | print x => exact ⟨rfl, rfl⟩
     | failure f => exact ⟨rfl, rfl⟩
+    | veryVerbose x =>
+      simp only [msgsOf]
+      cases s.veryVerbose <;> exact ⟨rfl, rfl⟩
     | testEnded ms c =>
       simp only [msgsOf]
       cases s.currTest <;> exact ⟨rfl, rfl⟩
